@@ -15,7 +15,8 @@ RULE = (
     "'0179afxbo_ul-+ X' is given to value_to_int and to a hand-written reference recogniser; "
     "non-trivial = accepted by at least one side (distinct by construction). numeric parts: every "
     "(number, alignment), (x, lo, hi) and integer in the stated small ranges; non-trivial = boundary "
-    "class (value on a limit, alignment 0/1, exact multiple). Hypothesis parts: integers up to 2^512 "
+    "class (value on a limit, alignment 0/1, exact multiple). Hypothesis parts: strings one to three edits away from a valid spelling "
+    "(judged by the reference recogniser either way), integers up to 2^512 "
     "rendered in every accepted spelling, byte strings up to 64 bytes; non-trivial = value >= 2^32 or "
     "spelling with prefix/underscore/suffix, distinct by case digest"
 )
